@@ -11,6 +11,7 @@ import StepModel.ComplexTerm2
 import StepModel.ComplexSatO5
 import StepModel.ComplexFuel
 import StepModel.ComplexBuildWF
+import StepModel.ComplexBuildOK
 /-!
 # C08 — complex instances are accepted exactly when the supertype constraints allow them
 
@@ -331,6 +332,15 @@ collects (the check still verifies it on every tree the real exp2cxx writes). -/
 theorem C08_collectOf_headWF (s : Schema) (hs : s.exprsOK) (fuel : Nat) (c : Collect) (h : collectOf s fuel = some c) :
     ∀ hd ∈ c, headWF hd = true :=
   collectOf_headWF s hs fuel c h
+
+/-- **The construction succeeds**: on every schema whose subtype graph is acyclic (`ht` strictly decreases from an
+entity to its subtypes), whose subtypes are all declared and whose supertype expressions mention subtypes only
+(`BuildOK`), `collectOf` returns a collect whenever the fuel covers two units per generation — it never runs out of
+fuel and never fails a look-up.  With `C08_collectOf_headWF` the hypothesis "`collectOf s fuel = some c`" of the
+theorems above is satisfiable for every such schema. -/
+theorem C08_collectOf_succeeds (s : Schema) (ht : Name → Nat) (B : BuildOK s ht) (fuel : Nat)
+    (hf : ∀ e ∈ s, 2 * ht e.name + 1 ≤ fuel) : ∃ c, collectOf s fuel = some c :=
+  collectOf_some s ht B fuel hf
 
 /-- … hence: no crash and "accept ⇒ some list derives a subset of the request" on every emitted collect -/
 theorem C08_emitted_safe_and_sound_half (s : Schema) (hs : s.exprsOK) (fuel : Nat) (c : Collect)
